@@ -71,7 +71,7 @@ func collect(p *Prog) *slots {
 func mutate(r *lib.Rng, p *Prog) string {
 	s := collect(p)
 	for try := 0; try < 12; try++ {
-		switch r.Intn(9) {
+		switch r.Intn(11) {
 		case 0: // change / add a let annotation to a related type
 			if len(s.lets) == 0 {
 				continue
@@ -223,6 +223,19 @@ func mutate(r *lib.Rng, p *Prog) string {
 			nb := append([]*Stmt{}, (*b)[:i]...)
 			*b = append(nb, (*b)[i+1:]...)
 			return "drop-stmt"
+		case 9, 10: // use another (earlier declared) variable
+			var cs []**Expr
+			for _, e := range s.exprs {
+				if (*e).Op == "var" && (*e).X > 0 {
+					cs = append(cs, e)
+				}
+			}
+			if len(cs) == 0 {
+				continue
+			}
+			e := lib.Pick(r, cs)
+			*e = &Expr{Op: "var", X: r.Intn((*e).X), Typ: (*e).Typ}
+			return "other-var"
 		case 8: // swap the branches of a conditional expression
 			var cs []**Expr
 			for _, e := range s.exprs {
